@@ -148,6 +148,10 @@ pub trait BlockMode {
     /// `*_blocks`, `*_blocks_b2b`, `*_blocks_inout`; lengths are multiples of the mode block size.
     /// `Err` when the API reports unequal lengths.
     fn many(&mut self, k: Kind, inp: &[u8], out: &mut [u8]) -> R;
+    /// `encrypt_with_backend` / `decrypt_with_backend` with a CALLER-SUPPLIED closure, in place on `buf`:
+    /// full parallel groups through `*_par_blocks`, then the remainder block by block (mode 1) or through
+    /// `*_tail_blocks` only if it is non-empty (mode 2)
+    fn many_closure(&mut self, mode: u8, buf: &mut [u8]);
     fn iv_state(&self) -> Vec<u8>;
     fn dup(&self) -> Box<dyn BlockMode>;
     fn debug(&self) -> String;
@@ -193,6 +197,9 @@ pub trait Core {
     fn apply_block(&mut self, k: Kind, inp: &[u8], out: &mut [u8]);
     fn write_block(&mut self, out: &mut [u8]);
     fn write_blocks(&mut self, out: &mut [u8]);
+    /// `process_with_backend` with a caller-supplied closure writing keystream blocks: `gen_par_ks_blocks` for
+    /// full groups, then `gen_ks_block` per block (mode 1) or `gen_tail_blocks` only if non-empty (mode 2)
+    fn write_blocks_closure(&mut self, mode: u8, out: &mut [u8]);
     /// `try_apply_keystream_partial`, consuming
     fn partial(self: Box<Self>, k: Kind, inp: &[u8], out: &mut [u8]) -> R;
     /// `None` when the core is not seekable
